@@ -473,7 +473,12 @@ class Ctx:
             "wall_s": round(time.time() - self.t0, 2),
             "violations": len(self.violations) + (1 if (self.broken and not self.violations) else 0),
         }
-        (EVID / f"{self.pid}.json").write_text(json.dumps(ev, indent=1, default=str))
+        evdir = EVID
+        if getattr(self, "no_proofs", False):
+            # development runs without the proof step are not evidence for the property: keep them out of evidence/
+            evdir = BUILD / "evidence-no-proofs"
+            evdir.mkdir(parents=True, exist_ok=True)
+        (evdir / f"{self.pid}.json").write_text(json.dumps(ev, indent=1, default=str))
         print(f"{self.pid} {self.tier}: obligations {self.discharged}/{self.obligations}, "
               f"cases {self.evaluations} ({len(self.case_hashes)} distinct), "
               f"violations {ev['violations']}, known {len(self.known_hits)}, {ev['wall_s']} s")
